@@ -138,7 +138,7 @@ def ready(pid):
 def main():
     import sys
     claimed = [a for a in sys.argv[1:]]
-    hooks_commits = ["b44e0a5", "7f51ee8"]
+    hooks_commits = ["b44e0a5", "7f51ee8", "44c03c0"]
     m = {
         "version": 1,
         "setup_cmd": "./setup.sh",
